@@ -310,6 +310,45 @@ def run(ctx, rep):
         else:
             rep.ok("R05.2", "OpenOptions::open(create_new)", "after the old tail hand-over", where=ga.where(n))
 
+    # ---------------- R05.7 -------------------------------------------------------------
+    rep.rule("R05.7", "a chunk file never outlives the operation that created it without its head record: on every path from the Ok edge of "
+                      "the create_new open to an Ok return of the operation (rotation in the write path; start-up in open) the Ok edge of a write "
+                      "to that very file is crossed. Recovery needs >= 1 complete record per chunk file (R05.1's known finding is the window "
+                      "inside the creating function; leaving the head record in a buffer widens it to `until the next flush`)")
+    for opname_, k7 in (("append", key), ("open", ctx.body_key(r"RaftLog::<T>::open$"))):
+        g7 = ctx.graph(k7)
+        P7 = ctx.product(k7)
+        cr7 = {n for n in P7.calls(r"fs::OpenOptions::open$")
+               if contains(event_args(g7, n)[0], lambda x: call_is(x, r"OpenOptions::create_new$"))}
+        rep.floor("R05.7", "chunk file creations in Op(%s)" % opname_, len(cr7), 1)
+        wr7 = {n for n in P7.calls(c04.WRITE_RX)
+               if contains(event_args(g7, n)[0], lambda x: call_is(x, r"fs::OpenOptions::open$") and contains(x, lambda y: call_is(y, r"OpenOptions::create_new$")))}
+
+        def step7(ms, pi, qi, learn, cr7=cr7, wr7=wr7):
+            for o, v in norm_learn(learn):
+                cn = origin_call(o)
+                if cn in cr7 and v in OKV:
+                    ms = True
+                if cn in wr7 and v in OKV:
+                    ms = False
+            return ms
+        seen7 = run_monitor(P7, False, step7)
+        bad7 = None
+        for (pi, ms0, ms) in finals(P7, seen7, step7):
+            if ms and P7.gnode(pi) in g7.exits:
+                tag = P7.tags_after_block(pi).get((0, 0, ()))
+                if not (tag and tag[0] == "Err"):
+                    bad7 = (pi, ms0)
+        if bad7:
+            rep.violation("R05.7", "%s|chunk-file-created-without-head-record" % opname_, "Op(%s): OpenOptions::open(create_new) ... Ok return" % opname_,
+                          "the operation can return Ok after creating a chunk file to which nothing has been written: until some later flush the "
+                          "directory holds an empty r-<offset>.wal, and any process exit in that window makes every later open fail "
+                          "(Chunk::last_segment on a chunk with zero records)", where=g7.where(sorted(cr7)[0]) if cr7 else "",
+                          path=describe_path(P7, [k_[0] for k_ in path_to(seen7, bad7)]))
+        else:
+            rep.ok("R05.7", "Op(%s): created chunk file receives its head record before the operation returns Ok" % opname_,
+                   "%d creation site(s), %d write site(s) on the created file" % (len(cr7), len(wr7)), where=g7.where(sorted(cr7)[0]) if cr7 else "")
+
     # ---------------- R05.3 -------------------------------------------------------------
     M = c09.OpenModel(ctx)
     sl = set(M.set_len)
